@@ -2,6 +2,7 @@
 Correspondence: real RSocketServer/RSocketClient on the single-step virtual-time loop with a harness transport:
 (a) KEEPALIVE frames injected into endpoints -> frames they queue (echo); (b) a client with period P and lifetime L whose
 server acknowledges according to a pattern -> instants of the probes and of on_keepalive_timeout, compared with model/Keepalive.v."""
+from harness import internals
 import asyncio
 import time
 from datetime import timedelta
@@ -336,7 +337,7 @@ def run_busy_sender(P_us, n_bytes, per_frame_us, lenreq):
             while seen < len(t.sent):
                 stamps.append((us(loop.time()) - t0, sim.parse_sent(t.sent[seen])['t']))
                 seen += 1
-            if c._send_queue.empty() and t._permits > 0:
+            if internals.send_queue(c).empty() and t._permits > 0:
                 break
             loop.run_until(loop.time() + per_frame_us / US)
             while seen < len(t.sent):
